@@ -119,6 +119,11 @@ class Run:
                 print("  key=%s\n  %s" % (jsonable(key), desc))
             sys.stdout.flush()
             return 1
+        nexc = self.counters.get("harness_exceptions", 0)
+        if nexc > 2 and nexc * 20 > max(1, getattr(self, "ncases", 0)):
+            # a harness that crashes on more than 5% of its cases has not explored what it claims
+            print("INCONCLUSIVE property=%s %d harness exceptions: %s" % (self.pid, nexc, "; ".join(self.inconclusive[:2])[-1500:]))
+            return 2
         if self.inconclusive and (self.evaluations < min_eval or len(self.nontrivial) < min_nontrivial):
             print("INCONCLUSIVE property=%s %s" % (self.pid, "; ".join(self.inconclusive[:5])))
             return 2
